@@ -1,6 +1,9 @@
 """C10 — see DESIGN.md section 5 "C10". Theorems: coq/Properties/C10.v (over Mseq); tie: T1 seq-diff (checks/seqcommon.py)."""
 from checks import seqcommon
+from lib import seqtie
 
 
 def run(ctx):
     seqcommon.run_seq_only(ctx, "C10")
+    if not ctx.replay:
+        seqtie.initfile_stage(ctx, None, "C10")     # T1 stage "boot on an adversarial state file" (Model/SeqFile.v)
